@@ -204,6 +204,15 @@ def configs(tier, seed):
                                                 scratch=scratch, mode=mode, rs=rs_name, T=Tc, W=2, F=1, seed=seed,
                                                 use_mra=(typ == "promotion" and i % 2 == 0), perms={str(levels[0]): p1},
                                                 max_states=1500 if tier == "quick" else 8000))
+    # long single-worker histories (several promotions per trial)
+    for typ in ("stopping", "promotion"):
+        for data in ("rungs", "all", "rungs_and_last"):
+            for scratch in (False, True):
+                if scratch and typ == "stopping":
+                    continue
+                out.append(dict(sched="hb", type=typ, searcher="bayesopt", data=data, myopic=False, brackets=1, scratch=scratch,
+                                mode="min", rs="lv125m6", T=6, W=1, F=1, seed=seed, use_mra=(typ == "promotion" and not scratch),
+                                perms={"1": (2, 0, 4, 1, 5, 3)}, max_states=1500 if tier == "quick" else 8000))
     for data in ("rungs", "all"):
         for mode in ("min", "max"):
             out.append(dict(sched="shb", data=data, mode=mode, rs="g1rf2m4", T=4, W=2, F=1, seed=seed, perms={"1": (0, 1, 2, 3)},
